@@ -360,6 +360,8 @@ def gen_add(rng, cfg, w: World, opid: int, invalid: bool, steer: bool):
             op["src"] = {"data_of": c.uid}
             if c.explicit:
                 op["data_id"] = c.did
+            if rng.random() < 0.3:
+                op["node_id"] = 30_000_000 + opid  # refused adds must not leak the id
         else:
             op["src"] = {"node": c.uid}
             if rng.random() < 0.3:
@@ -378,6 +380,14 @@ def gen_add(rng, cfg, w: World, opid: int, invalid: bool, steer: bool):
             op["src"] = pick_data_src(rng, cfg, w, si)
         else:
             srcn = rng.choice(cand)
+            self_copy = False
+            if sj == si and not P.is_root() and rng.random() < 0.08:
+                # a branch copied below itself: onto the node itself or from an ancestor
+                chain = [P]
+                while chain[-1].parent is not None and not chain[-1].parent.is_root():
+                    chain.append(chain[-1].parent)
+                srcn = rng.choice(chain[:3])
+                self_copy = True
             op["src"] = {"node": srcn.uid}
             if rng.random() < (0.3 if invalid else 0.06):
                 # data_id= with a node source must match the source's id
@@ -386,7 +396,7 @@ def gen_add(rng, cfg, w: World, opid: int, invalid: bool, steer: bool):
                 elif cfg["ids"]:
                     op["data_id"] = rng.choice(cfg["ids"])
             dr = rng.random()
-            if dr < 0.35:
+            if dr < 0.35 or (self_copy and dr < 0.85):
                 op["deep"] = True
             elif dr < 0.45:
                 op["deep"] = False
@@ -738,7 +748,8 @@ def gen_restart(rng, cfg, w: World, opid, invalid, steer):
     op = {"id": opid, "k": "restart", "slot": si}
     via = cfg.get("restart_via") or rng.choice(["file", "file", "dict"])
     op["via"] = via
-    op["mapper_style"] = rng.choice(["inplace_ret", "inplace_none", "new", "new_bare"])
+    op["mapper_style"] = rng.choice(["inplace_ret", "inplace_none", "new", "new_bare",
+                                     "new_data"])
     if rng.random() < 0.3:
         op["deser_style"] = "consume"
     if via == "dict":
